@@ -246,6 +246,10 @@ void  XMLBigDecimal::parseDecimal(const XMLCh* const toParse
         }
     }
 
+    // A decimal point alone is not a decimal: at least one digit is required
+    if ((*startPtr == chPeriod) && (startPtr + 1 == endPtr))
+        ThrowXMLwithMemMgr(NumberFormatException, XMLExcepts::XMLNUM_Inv_chars, manager);
+
     // Strip leading zeros
     while (*startPtr == chDigit_0)
         startPtr++;
@@ -346,6 +350,10 @@ void  XMLBigDecimal::parseDecimal(const XMLCh*         const toParse
             ThrowXMLwithMemMgr(NumberFormatException, XMLExcepts::XMLNUM_Inv_chars, manager);
         }
     }
+
+    // A decimal point alone is not a decimal: at least one digit is required
+    if ((*startPtr == chPeriod) && (startPtr + 1 == endPtr))
+        ThrowXMLwithMemMgr(NumberFormatException, XMLExcepts::XMLNUM_Inv_chars, manager);
 
     // Strip leading zeros
     while (*startPtr == chDigit_0)
